@@ -626,10 +626,16 @@ func c14Spaces(c *fw.Ctx) {
 						sc := mkMux("e2/mux/all-programs", p)
 						st := e2x.NewStats()
 						st.Tick = r.Alive
-						e2x.Explore(sc, nil, 100, st, 0)
+						// a program's whole schedule tree takes ≤ 20 k executions on the pinned tree; the cap keeps the run
+						// bounded when a change under test adds synchronisation to ServeDNS (reported as not exhaustive)
+						e2x.Explore(sc, nil, 100, st, 300000)
 						if st.Internal != "" {
 							r.Fail("internal/e2/mux/all-programs", "%s: %s", name, st.Internal)
 							return
+						}
+						if st.Capped {
+							r.Count("programs cut by the per-program execution cap (300000)", 1)
+							r.NotExhaustive()
 						}
 						if serve && write {
 							r.Nontrivial()
